@@ -246,3 +246,7 @@ package pipeline
 //@   ensures !held(b.mu)
 //@   callee Wait()
 //@     pure
+
+//@ func (*SliceMap).Copy
+//@   pure
+//@   ensures isnil(result) || fresh(result)
